@@ -72,7 +72,8 @@ def group_vectors(vs):
         g["vectors"].append(v)
     out = list(groups.values())
     for gid, g in enumerate(out):
-        g["gid"] = gid
+        g["gid"] = ("R%d" % gid) if g["inner"] == "given" else gid
+        g["pinned"] = g["inner"] == "given" or any(v.get("pin") for v in g["vectors"])
     return out
 
 
@@ -80,7 +81,7 @@ def make_env(inner_defs, group):
     ninner = len(inner_defs)
     defs = inner_defs + group["cons"]
     names = ["T%d" % (i + 1) for i in range(ninner)] + \
-            ["X%d_%d" % (group["gid"], i + 1) for i in range(len(group["cons"]))]
+            ["X%s_%d" % (group["gid"], i + 1) for i in range(len(group["cons"]))]
     return S.Env(defs, names=names)
 
 
@@ -164,6 +165,7 @@ def generate_faults(tier):
             else:
                 v = json.loads(body)
                 v["inner"] = inner
+                v["pin"] = sim is None and tier == "quick"   # the exhaustive part is never sampled away
                 vs.vectors.append(v)
         vs.stats.append(res.stats)
     return vs
@@ -209,10 +211,33 @@ def generate_given(envs, max_len=2):
         if tag == "ILLEGAL":
             raise MachineryError("given environment %s is not legal per the specification" % body)
         v = json.loads(body)
-        g = groups.setdefault(v["gid"], {"gid": "given%d" % v["gid"], "inner": "given", "defs": envs[v["gid"] - 1],
+        g = groups.setdefault(v["gid"], {"gid": "given%d" % v["gid"], "inner": "given", "cons": envs[v["gid"] - 1],
                                          "vectors": [], "lay": v["lay"]})
+        v["inner"] = "given"
+        v["env"] = envs[v["gid"] - 1]
         g["vectors"].append(v)
     return [groups[k] for k in sorted(groups)], res.stats
+
+
+def add_reproducers(vs, pid):
+    """Append the committed reproducers of this property's known findings
+    (findings/<key>.json: {"env": [...]}) to the vector set, so that every run
+    exercises them: KNOWN-FINDING is printed while they still fail."""
+    from .common import Known, VERIF
+    envs = []
+    for key in Known().keys_for(pid):
+        path = os.path.join(VERIF, "findings", key + ".json")
+        if os.path.exists(path):
+            with open(path) as f:
+                envs.append(json.load(f)["env"])
+    if not envs:
+        return
+    groups, stats = generate_given(envs)
+    vs.inner["given"] = []
+    for g in groups:
+        vs.vectors += g["vectors"]
+    vs.stats.append(stats)
+    vs.reproducer_groups = [g["gid"] for g in groups]
 
 
 def validate_traces(items):
